@@ -602,17 +602,7 @@ func ruleD2(w *world.World, r *report.RuleResult) {
 			r.Fail(fname+"|c2:log-only-writes"+sfx, pos, "the AOF append is not guarded by the write-command test")
 		}
 		// (d) payload
-		var payload, dbArg ssa.Value
-		for _, a := range lc.Call.Args[1:] {
-			switch t := a.Type().Underlying().(type) {
-			case *types.Slice:
-				payload = a
-			case *types.Basic:
-				if t.Kind() == types.Int {
-					dbArg = a
-				}
-			}
-		}
+		payload, dbArg, dbCtx := logOperands(w, lc, 0)
 		if payload == ssa.Value(d.message) && d.decode != nil && len(d.decode.Call.Args) == 1 && d.decode.Call.Args[0] == ssa.Value(d.message) {
 			r.OK(fname+"|d:payload-is-request"+sfx, pos, "logged bytes are the dispatcher's message parameter, the same bytes that were decoded and executed")
 		} else {
@@ -620,7 +610,7 @@ func ruleD2(w *world.World, r *report.RuleResult) {
 		}
 		// (e) database
 		key := fname + "|e:log-database" + sfx
-		if dbArg == nil || d.paramsCall == nil {
+		if (dbArg == nil && dbCtx == nil) || d.paramsCall == nil {
 			r.Und(key, pos, "cannot identify the database operand of the AOF append / the handler's context")
 			continue
 		}
@@ -631,6 +621,14 @@ func ruleD2(w *world.World, r *report.RuleResult) {
 			}
 		}
 		vals := dbContextValues(hctx, "Database")
+		if dbCtx != nil && dbCtx == hctx {
+			r.OK(key, pos, "database operand is read back (inside the logging helper) from the handler's context (key \"Database\")")
+			continue
+		}
+		if dbArg == nil {
+			r.Fail(key, pos, "the logging helper reads the database from a context that is not the one the handler executed with")
+			continue
+		}
 		if c, ok := isCtxValueRead(dbArg, "Database"); ok && c == hctx {
 			r.OK(key, pos, "database operand is read back from the handler's context (key \"Database\")")
 			continue
@@ -662,6 +660,79 @@ func ruleD2(w *world.World, r *report.RuleResult) {
 			r.Fail(key, pos, fmt.Sprintf("the database operand of the AOF append (%s) is not the request's database: the handler's context carries %s on another branch (embedded callers have conn==nil, so a map lookup by conn yields database 0) — the write is logged under the wrong database", exprString(dbArg), strings.Join(missing, ", ")))
 		}
 	}
+}
+
+// logOperands identifies the payload and database operands of an AOF append. When the append is
+// wrapped in a module helper (a static callee that itself forwards to the call reaching the log
+// writer), the helper's operands are translated back to the caller's arguments; a database the
+// helper reads from one of its context parameters is returned as dbCtx (the caller's argument).
+func logOperands(w *world.World, lc *ssa.Call, depth int) (payload, dbArg, dbCtx ssa.Value) {
+	args := lc.Call.Args
+	if !lc.Call.IsInvoke() && lc.Call.StaticCallee() != nil && lc.Call.StaticCallee().Signature.Recv() != nil && len(args) > 0 {
+		args = args[1:]
+	}
+	for _, a := range args {
+		switch t := a.Type().Underlying().(type) {
+		case *types.Slice:
+			payload = a
+		case *types.Basic:
+			if t.Kind() == types.Int {
+				dbArg = a
+			}
+		}
+	}
+	if dbArg != nil || depth >= 2 {
+		return
+	}
+	f := lc.Call.StaticCallee()
+	if f == nil || f.Blocks == nil || !world.InModule(f) {
+		return
+	}
+	var inner *ssa.Call
+	for _, c := range world.Calls(f) {
+		call, ok := c.(*ssa.Call)
+		if !ok {
+			continue
+		}
+		g := call.Common().StaticCallee()
+		if g != nil && world.InModule(g) && reachesFunc(w, g, "internal/aof/log.(*Store).Write") {
+			if inner != nil {
+				return payload, nil, nil // more than one append in the helper: not translated
+			}
+			inner = call
+		}
+	}
+	if inner == nil {
+		return
+	}
+	toCaller := func(v ssa.Value) ssa.Value {
+		v = world.Unwrap(v)
+		if p, ok := v.(*ssa.Parameter); ok {
+			for i, q := range f.Params {
+				if q == p && i < len(lc.Call.Args) {
+					return lc.Call.Args[i]
+				}
+			}
+		}
+		return nil
+	}
+	ip, idb, ictx := logOperands(w, inner, depth+1)
+	payload = nil
+	if ip != nil {
+		payload = toCaller(ip)
+	}
+	if ictx != nil {
+		dbCtx = toCaller(ictx)
+		return
+	}
+	if idb != nil {
+		if c, ok := isCtxValueRead(idb, "Database"); ok {
+			dbCtx = toCaller(c)
+			return
+		}
+		dbArg = toCaller(idb)
+	}
+	return
 }
 
 // exprString renders a small SSA value tree.
